@@ -150,6 +150,9 @@ class ConnectionPool(Entity):
         self._active_connections: dict[int, Connection] = {}
         self._next_connection_id = 0
         self._total_connections = 0
+        # Connections whose set-up latency is still running; they already occupy
+        # a slot of max_connections so that arrivals during set-up cannot over-create.
+        self._pending_connections = 0
 
         # Waiters: list of (waiter_id, request_time, callback)
         self._waiters: deque[tuple[int, Instant, Callable[[Connection | None], None]]] = deque()
@@ -280,7 +283,7 @@ class ConnectionPool(Entity):
             return connection
 
         # Can we create a new connection?
-        if self._total_connections < self._max_connections:
+        if self._total_connections + self._pending_connections < self._max_connections:
             connection = yield from self._create_connection()
             self._activate_connection(connection)
             logger.debug(
@@ -549,7 +552,11 @@ class ConnectionPool(Entity):
         """Create a new connection to the target."""
         # Simulate connection establishment time
         latency = self._connection_latency.get_latency(self.now)
-        yield latency.to_seconds()
+        self._pending_connections += 1
+        try:
+            yield latency.to_seconds()
+        finally:
+            self._pending_connections -= 1
 
         self._next_connection_id += 1
         connection = Connection(
